@@ -422,6 +422,8 @@ def dollars_and_cents(v, name='(Unknown name)', md={}):
 def thousands_commas(v, name='(Unknown name)', md={},
                      thou=re.compile(
                          r"([0-9])([0-9][0-9][0-9]([,.]|$))").search):
+    if isinstance(v, bytes):
+        return thousands_commas(v.decode('utf-8')).encode('utf-8')
     v = str(v)
     vl = v.split('.')
     if not vl:
